@@ -8,7 +8,9 @@ import (
 	"sort"
 	"strings"
 
+	"github.com/trustbloc/sidetree-core-go/pkg/api/operation"
 	"github.com/trustbloc/sidetree-core-go/pkg/api/protocol"
+	"github.com/trustbloc/sidetree-core-go/pkg/dochandler"
 	"github.com/trustbloc/sidetree-core-go/pkg/versions/1_0/operationparser"
 
 	"verif/mc/fx"
@@ -328,9 +330,68 @@ func setPath(root interface{}, path []string, val interface{}, remove bool) inte
 
 var c10Replacements = []interface{}{nil, "", 0.0, []interface{}{}, map[string]interface{}{}, true, "x", "EiAAAAAAAAAAAAAAAAAAAAAAAAAAAAAAAAAAAAAAAAAAAA", []interface{}{"a"}, 1e300, "\u0000"}
 
+// ---- intake through the document handler with two protocol versions
+
+type c10Writer struct{ versions []uint64 }
+
+func (w *c10Writer) Add(_ *operation.QueuedOperation, protocolVersion uint64) error {
+	w.versions = append(w.versions, protocolVersion)
+	return nil
+}
+
+type c10PassThrough struct{}
+
+func (c10PassThrough) Decorate(op *operation.Operation) (*operation.Operation, error) { return op, nil }
+
+// c10TwoVersionIntake submits req to a DocumentHandler whose protocol client has two versions (genesis times 0 and 100), one
+// with the parameters under test and one with the generous base parameters, in both layouts and with either version current:
+// a request submitted for protocol version t is judged by the rules of the version in force at t (and queued under it),
+// whatever the current version is. wantStrict is the expected verdict under the parameters under test; base accepts req.
+func c10TwoVersionIntake(r *hx.Run, caseID, ns string, strict, base protocol.Protocol, req []byte, wantStrict bool) {
+	for layout := 0; layout < 2; layout++ {
+		first, second := strict, base
+		if layout == 1 {
+			first, second = base, strict
+		}
+		first.GenesisTime, second.GenesisTime = 0, 100
+		v0, v1 := fx.NewVersion(first, nil), fx.NewVersion(second, nil)
+		for cur := 0; cur < 2; cur++ {
+			client := fx.NewClient(v0, v1)
+			if cur == 0 {
+				client.SetCurrent(v0)
+			}
+			for _, t := range []uint64{0, 57, 100, 105} {
+				w := &c10Writer{}
+				h := dochandler.New(ns, nil, client, w, nil, fx.Metrics, dochandler.WithOperationDecorator(c10PassThrough{}))
+				_, err := h.ProcessOperation(req, t)
+				r.Eval()
+				underStrict := (t < 100) == (layout == 0)
+				want, genesis := true, uint64(0)
+				if underStrict {
+					want = wantStrict
+				}
+				if t >= 100 {
+					genesis = 100
+				}
+				if (err == nil) != want {
+					r.Violation(fmt.Sprintf("handler-intake-under-wrong-version:accepted=%v", err == nil), fmt.Sprintf("%s|handler|layout=%d|cur=%d|t=%d", caseID, layout, cur, t),
+						fmt.Sprintf("DocumentHandler.ProcessOperation(request, %d) with versions at 0 and 100 (parameters under test in the %s one, version %d current): accepted=%v, want %v (%v)",
+							t, []string{"first", "second"}[layout], []uint64{0, 100}[cur], err == nil, want, err), map[string]interface{}{"request": string(req)})
+					return
+				}
+				if err == nil && (len(w.versions) != 1 || w.versions[0] != genesis) {
+					r.Violation("handler-intake-queued-under-wrong-version", fmt.Sprintf("%s|handler|layout=%d|cur=%d|t=%d", caseID, layout, cur, t),
+						fmt.Sprintf("request submitted for protocol version %d was queued under %v, want [%d]", t, w.versions, genesis), nil)
+					return
+				}
+			}
+		}
+	}
+}
+
 func c10(r *hx.Run) {
 	fx.Quiet()
-	r.Rule = "(a) for each valid seed (4 types x 5 key types, nonce absent/present for Ed25519 and P-256) every limit parameter is set to measured value -1, +0, +1 while all other parameters are generous and pairwise distinct: accepted iff limit >= measured (nonce: == measured); every enabled-list entry used by the request is removed in turn; unrelated parameters are toggled; (b) every JSON path of the request, the decoded signed data and the protected header is removed / replaced by 11 foreign values (re-signed): accepted => independent rule predicate; (c) Parse, ParseOperation(batch and not), GetRevealValue, GetCommitment, ParseDID on every prefix, every path-mutation and a DID-string grammar: error or value, never a panic. Non-trivial: distinct requests that the real parser rejects or that reach a boundary."
+	r.Rule = "(a) for each valid seed (4 types x 5 key types, nonce absent/present for Ed25519 and P-256) every limit parameter is set to measured value -1, +0, +1 while all other parameters are generous and pairwise distinct: accepted iff limit >= measured (nonce: == measured); every enabled-list entry used by the request is removed in turn; unrelated parameters are toggled; each of these cases is also submitted to a DocumentHandler with two protocol versions (the tested parameters in the first or the second, either one current) for times in both versions: judged by, and queued under, the version in force at the submitted time; (b) every JSON path of the request, the decoded signed data and the protected header is removed / replaced by 11 foreign values (re-signed): accepted => independent rule predicate; (c) Parse, ParseOperation(batch and not), GetRevealValue, GetCommitment, ParseDID on every prefix, every path-mutation and a DID-string grammar: error or value, never a panic. Non-trivial: distinct requests that the real parser rejects or that reach a boundary."
 	seeds := c10Seeds()
 	base := fx.DefaultProtocol()
 	ns := "did:sidetree"
@@ -378,6 +439,7 @@ func c10(r *hx.Run) {
 						r.Violation("accepted-against-rule:"+why, caseID, fmt.Sprintf("%s accepted with %s=%d but violates: %s", s.name, param, measured+dv, why), nil)
 					}
 				}
+				c10TwoVersionIntake(r, caseID, ns, p, base, req, want)
 			}
 		}
 		bound("MaxOperationSize", n, false, func(p *protocol.Protocol, v uint) { p.MaxOperationSize = v })
@@ -481,6 +543,7 @@ func c10(r *hx.Run) {
 					r.Violation(fmt.Sprintf("boundary:hashlen:%s:%+d:accepted=%v", h.name, dv, err == nil), caseID,
 						fmt.Sprintf("%s with only %s under SHA2-512 (%d chars) and MaxOperationHashLength=%d: accepted=%v (%v)", s.name, h.name, len512, len512+dv, err == nil, err), nil)
 				}
+				c10TwoVersionIntake(r, caseID, ns, p, base, req2, dv >= 0)
 				// the algorithm must be enabled
 				p = base
 				p.MultihashAlgorithms = []uint{fx.SHA256}
@@ -505,6 +568,7 @@ func c10(r *hx.Run) {
 				r.Violation(fmt.Sprintf("enabled-list:%s:%s:accepted=%v", param, entry, err == nil), caseID,
 					fmt.Sprintf("%s with %s lacking %q: accepted=%v want %v (%v)", s.name, param, entry, err == nil, want, err), nil)
 			}
+			c10TwoVersionIntake(r, caseID, ns, p, base, req, want)
 		}
 		without := func(list []string, e string) []string {
 			var out []string
